@@ -160,6 +160,14 @@ func RunC17(casesPath, tracePath, statsPath string, seed int64) error {
 			b, _ := json.Marshal(app.BridgeVoteExtension{ValsetSignature: app.BridgeValsetSignature{Signature: randBytes(rng, 64), Timestamp: cpTs}})
 			return b[:len(b)/2]
 		case "jsonempty":
+		case "jsonbare":
+			return []byte("{}")
+		case "valsetonly":
+			b, _ := json.Marshal(map[string]any{"ValsetSignature": app.BridgeValsetSignature{Signature: randBytes(rng, 64), Timestamp: cpTs}})
+			return b
+		case "attonly":
+			b, _ := json.Marshal(map[string]any{"OracleAttestations": []att{{Snapshot: snap1, Attestation: randBytes(rng, 64)}}})
+			return b
 		case "initgood":
 			e.InitialSignature = app.InitialSignature{SignatureA: signInit(k, "TellorLayer: Initial bridge signature A"), SignatureB: signInit(k, "TellorLayer: Initial bridge signature B")}
 		case "init65":
